@@ -99,6 +99,20 @@ def probes() -> list[Item]:
     code = assemble(body + [("PUSH", 0), "MSTORE", ("PUSH", 32), ("PUSH", 0), "RETURN"])
     out.append(Item(Prog(accounts={TARGET: code}, calldata=[Sym("cd0", 256)], name="short-key-concrete-vs-symbolic"),
                     [{"cd0": 0}, {"cd0": 5}, {"cd0": 1 << 255}], key="probe:short-key-concrete-vs-symbolic"))
+    # nested mapping m[a][b] at slot 0 with 32-byte keys: one slot spelled with concrete and with symbolic keys
+    def nested(k1, k2):
+        return k1 + [("PUSH", 0x200), "MSTORE", ("PUSH", 0), ("PUSH", 0x220), "MSTORE", ("PUSH", 64), ("PUSH", 0x200), "SHA3", ("PUSH", 0x260), "MSTORE"] + \
+            k2 + [("PUSH", 0x240), "MSTORE", ("PUSH", 64), ("PUSH", 0x240), "SHA3"]
+
+    X, Y = [("PUSH", 0), "CALLDATALOAD"], [("PUSH", 32), "CALLDATALOAD"]
+    C = lambda v: [("PUSH", v)]  # noqa: E731
+    pairs = {"sym2-then-con": ((C(1), Y), (C(1), C(2))), "sym-then-con": ((X, Y), (C(3), C(4))), "con-then-sym": ((C(1), C(2)), (X, Y)),
+             "con-then-sym1": ((C(5), C(6)), (X, C(6)))}
+    for nm, (st, ld) in pairs.items():
+        body = [("PUSH", 0xABCDEF)] + nested(*st) + ["SSTORE"] + nested(*ld) + ["SLOAD"]
+        code = assemble(body + [("PUSH", 0), "MSTORE", ("PUSH", 32), ("PUSH", 0), "RETURN"])
+        out.append(Item(Prog(accounts={TARGET: code}, calldata=[Sym("cd0", 256), Sym("cd1", 256)], name=f"nested-map-{nm}"),
+                        [{"cd0": 1, "cd1": 2}, {"cd0": 3, "cd1": 4}, {"cd0": 5, "cd1": 6}, {"cd0": 0, "cd1": 2}, {"cd0": 1, "cd1": 0}], key=f"probe:nested-map-{nm}"))
     # a[n-1] the way the optimiser writes it, (keccak(2) - 1) + n, against keccak(2) + m with m = n - 1
     body = runtime_hash(2) + ["POP", ("PUSH", 0xAA), ("PUSHN", 32, (k32(2) - 1) % 2**256), ("PUSH", 0), "CALLDATALOAD", "ADD", "SSTORE"] + \
         runtime_hash(2) + [("PUSH", 32), "CALLDATALOAD", "ADD", "SLOAD"]
